@@ -54,7 +54,10 @@ def _safe_run(mod, case, keep_log=False):
     except HarnessError as e:
         return {"harness_error": f"HarnessError: {e}", "violation": None, "digest": "", "stats": {}}
     except MemoryError:
-        return {"harness_error": "MemoryError in harness", "violation": None, "digest": "", "stats": {}}
+        import gc
+        gc.collect()
+        return {"harness_error": "MemoryError (memory limit of the worker reached inside run_case)", "violation": None,
+                "digest": "", "stats": {}}
     except Exception as e:  # noqa
         return {"harness_error": "".join(traceback.format_exception(e))[-3000:], "violation": None,
                 "digest": "", "stats": {}}
